@@ -200,6 +200,21 @@ def expectedGuards : List (String × String × String × String) := [
   ("photon_weave/operation/operation.py", "Operation.operator", "self._operation_type is not FockOperationType.Custom", "ValueError")
 ]
 
+/-- shrink decisions: comparisons on `num_quanta` in the resize methods (file, class.function, comparison) -/
+def expectedResizeGuards : List (String × String × String) := [
+  ("photon_weave/state/composite_envelope.py", "ProductState.resize_fock", "num_quanta >= new_dimensions"),
+  ("photon_weave/state/composite_envelope.py", "ProductState.resize_fock", "num_quanta >= new_dimensions"),
+  ("photon_weave/state/envelope.py", "Envelope.resize_fock", "num_quanta >= new_dimensions"),
+  ("photon_weave/state/envelope.py", "Envelope.resize_fock", "num_quanta >= new_dimensions"),
+  ("photon_weave/state/fock.py", "Fock.resize", "num_quanta < new_dimensions"),
+  ("photon_weave/state/fock.py", "Fock.resize", "num_quanta < new_dimensions")
+]
+
+/-- every shrink decision of the source is the model's: refuse iff the highest occupied level does not
+fit (`num_quanta >= new_dimensions` refuses, `num_quanta < new_dimensions` allows) -/
+def shrinkRuleOk (r : String × String × String) : Bool :=
+  r.2.2 == "num_quanta >= new_dimensions" || r.2.2 == "num_quanta < new_dimensions"
+
 /-- the membership test of an envelope is by identity (`is not`), in every method that takes operands -/
 def envelopeMembershipGuarded (t : List (String × String × String × String)) : Bool :=
   ["Envelope.measure", "Envelope.measure_POVM", "Envelope.apply_kraus", "Envelope.trace_out", "Envelope.apply_operation"].all fun m =>
